@@ -327,6 +327,204 @@ theorem qualified_predicate_sound (e : Err) (ns typ qns qtyp : String)
   by_cases a : qns = "" <;> by_cases b : qtyp = "" <;> by_cases c : ns = qns <;>
     by_cases d : typ = qtyp <;> simp [a, b, c, d, c', d']
 
+/-! ### linearizability of the atomic-step concurrent semantics -/
+
+/-- events of a concurrent history: a client invokes an operation, the operation takes
+    effect atomically (under the collection lock — regenerated fact `lockDiscipline`), the
+    client receives the response -/
+inductive CEv where
+  | inv (c : Nat) (op : Op)
+  | lin (c : Nat)
+  | resp (c : Nat)
+
+/-- the open call of a client -/
+structure OpenCall where
+  op : Op
+  invAt : Nat
+  done : Option (Out × Nat) := none     -- response and the instant the call took effect
+
+structure Completed where
+  client : Nat
+  op : Op
+  out : Out
+  invAt : Nat
+  linAt : Nat
+  respAt : Nat
+
+structure CSt where
+  store : Store := []
+  now : Nat := 0                         -- one tick per event
+  opens : Nat → Option OpenCall := fun _ => none
+  lins : List (Nat × Op × Out) := []     -- (instant, op, response) in the order of taking effect
+  completed : List Completed := []
+
+def cstep (cfg : Cfg) (s : CSt) : CEv → CSt
+  | .inv c op =>
+    match s.opens c with
+    | some _ => { s with now := s.now + 1 }          -- one call at a time per client
+    | none => { s with now := s.now + 1,
+                       opens := fun x => if x = c then some { op := op, invAt := s.now } else s.opens x }
+  | .lin c =>
+    match s.opens c with
+    | some { op := op, invAt := i, done := none } =>
+      let r := step cfg s.store s.now op
+      { s with now := s.now + 1, store := r.1, lins := s.lins ++ [(s.now, op, r.2)],
+               opens := fun x => if x = c then some { op := op, invAt := i, done := some (r.2, s.now) } else s.opens x }
+    | _ => { s with now := s.now + 1 }
+  | .resp c =>
+    match s.opens c with
+    | some { op := op, invAt := i, done := some (out, l) } =>
+      { s with now := s.now + 1, opens := fun x => if x = c then none else s.opens x,
+               completed := s.completed ++ [{ client := c, op := op, out := out, invAt := i, linAt := l, respAt := s.now }] }
+    | _ => { s with now := s.now + 1 }
+
+def crun (cfg : Cfg) (s : CSt) (evs : List CEv) : CSt := evs.foldl (cstep cfg) s
+
+/-- sequential replay of a linearization through the SPECIFICATION, each operation at its own instant -/
+def replay (cfg : Cfg) (st : Store) : List (Nat × Op × Out) → Store × List Out
+  | [] => (st, [])
+  | (t, op, _) :: rest =>
+    ((replay cfg (Spec.step cfg st t op).1 rest).1, (Spec.step cfg st t op).2 :: (replay cfg (Spec.step cfg st t op).1 rest).2)
+
+theorem replay_snoc (cfg : Cfg) (st : Store) (a : List (Nat × Op × Out)) (t : Nat) (op : Op) (o : Out) :
+    replay cfg st (a ++ [(t, op, o)]) =
+      ((Spec.step cfg (replay cfg st a).1 t op).1, (replay cfg st a).2 ++ [(Spec.step cfg (replay cfg st a).1 t op).2]) := by
+  induction a generalizing st with
+  | nil => simp [replay]
+  | cons x xs ih =>
+    obtain ⟨t', op', o'⟩ := x
+    simp [replay, ih]
+
+structure LinInv (cfg : Cfg) (s : CSt) : Prop where
+  seq : replay cfg [] s.lins = (s.store, s.lins.map (·.2.2))
+  sorted : s.lins.Pairwise (fun a b => a.1 < b.1)
+  past : ∀ x ∈ s.lins, x.1 < s.now
+  opens_ok : ∀ c o, s.opens c = some o → o.invAt < s.now ∧
+    ∀ out l, o.done = some (out, l) → o.invAt < l ∧ l < s.now ∧ (l, o.op, out) ∈ s.lins
+  completed_ok : ∀ c ∈ s.completed, c.invAt < c.linAt ∧ c.linAt < c.respAt ∧ c.respAt < s.now ∧
+    (c.linAt, c.op, c.out) ∈ s.lins
+
+theorem init_lin (cfg : Cfg) : LinInv cfg {} := by
+  refine ⟨rfl, List.Pairwise.nil, ?_, ?_, ?_⟩
+  · intro x hx; cases hx
+  · intro c o h; cases h
+  · intro c hc; cases hc
+
+theorem cstep_inv (cfg : Cfg) (s : CSt) (e : CEv) (h : LinInv cfg s) : LinInv cfg (cstep cfg s e) := by
+  obtain ⟨hseq, hsorted, hpast, hopens, hcomp⟩ := h
+  have bump_opens : ∀ c o, s.opens c = some o → o.invAt < s.now + 1 ∧
+      ∀ out l, o.done = some (out, l) → o.invAt < l ∧ l < s.now + 1 ∧ (l, o.op, out) ∈ s.lins := by
+    intro c o ho
+    obtain ⟨a, b⟩ := hopens c o ho
+    exact ⟨by omega, fun out l hd => by obtain ⟨x, y, z⟩ := b out l hd; exact ⟨x, by omega, z⟩⟩
+  have bump_comp : ∀ c ∈ s.completed, c.invAt < c.linAt ∧ c.linAt < c.respAt ∧ c.respAt < s.now + 1 ∧
+      (c.linAt, c.op, c.out) ∈ s.lins := by
+    intro c hc; obtain ⟨a, b, d, e⟩ := hcomp c hc; exact ⟨a, b, by omega, e⟩
+  have bump_past : ∀ x ∈ s.lins, x.1 < s.now + 1 := fun x hx => by have := hpast x hx; omega
+  cases e with
+  | inv c op =>
+    simp only [cstep]
+    cases hc : s.opens c with
+    | some o => exact ⟨hseq, hsorted, bump_past, bump_opens, bump_comp⟩
+    | none =>
+      refine ⟨hseq, hsorted, bump_past, ?_, bump_comp⟩
+      intro c' o' ho'
+      simp only at ho'
+      by_cases hcc : c' = c
+      · simp only [hcc, if_true] at ho'
+        injection ho' with ho'; subst ho'
+        exact ⟨by simp, fun out l hd => by cases hd⟩
+      · simp only [hcc, if_false] at ho'; exact bump_opens c' o' ho'
+  | lin c =>
+    simp only [cstep]
+    cases hc : s.opens c with
+    | none => exact ⟨hseq, hsorted, bump_past, bump_opens, bump_comp⟩
+    | some o =>
+      obtain ⟨op, i, d⟩ := o
+      cases d with
+      | some d => exact ⟨hseq, hsorted, bump_past, bump_opens, bump_comp⟩
+      | none =>
+        simp only
+        have hi : i < s.now := (hopens c _ hc).1
+        refine ⟨?_, ?_, ?_, ?_, ?_⟩
+        · rw [replay_snoc, hseq, step_eq_spec]; simp
+        · rw [List.pairwise_append]
+          exact ⟨hsorted, List.pairwise_singleton _ _, fun a ha b hb => by
+            simp only [List.mem_singleton] at hb; subst hb; exact hpast a ha⟩
+        · intro x hx
+          rcases List.mem_append.1 hx with hx | hx
+          · exact bump_past x hx
+          · simp only [List.mem_singleton] at hx; subst hx; simp
+        · intro c' o' ho'
+          simp only at ho'
+          by_cases hcc : c' = c
+          · simp only [hcc, if_true] at ho'
+            injection ho' with ho'; subst ho'
+            refine ⟨(by show i < s.now + 1; omega), fun out l hd => ?_⟩
+            simp only [Option.some.injEq, Prod.mk.injEq] at hd
+            obtain ⟨rfl, rfl⟩ := hd
+            exact ⟨hi, (by show s.now < s.now + 1; omega), by simp⟩
+          · simp only [hcc, if_false] at ho'
+            obtain ⟨a, b⟩ := bump_opens c' o' ho'
+            exact ⟨a, fun out l hd => by
+              obtain ⟨x, y, z⟩ := b out l hd; exact ⟨x, y, List.mem_append_left _ z⟩⟩
+        · intro c' hc'
+          obtain ⟨a, b, d, e⟩ := bump_comp c' hc'
+          exact ⟨a, b, d, List.mem_append_left _ e⟩
+  | resp c =>
+    simp only [cstep]
+    cases hc : s.opens c with
+    | none => exact ⟨hseq, hsorted, bump_past, bump_opens, bump_comp⟩
+    | some o =>
+      obtain ⟨op, i, d⟩ := o
+      cases d with
+      | none => exact ⟨hseq, hsorted, bump_past, bump_opens, bump_comp⟩
+      | some d =>
+        obtain ⟨out, l⟩ := d
+        simp only
+        obtain ⟨_, hd⟩ := hopens c _ hc
+        obtain ⟨h1, h2, h3⟩ := hd out l rfl
+        refine ⟨hseq, hsorted, bump_past, ?_, ?_⟩
+        · intro c' o' ho'
+          simp only at ho'
+          by_cases hcc : c' = c
+          · simp only [hcc, if_true] at ho'; cases ho'
+          · simp only [hcc, if_false] at ho'; exact bump_opens c' o' ho'
+        · intro c' hc'
+          rcases List.mem_append.1 hc' with hc' | hc'
+          · exact bump_comp c' hc'
+          · simp only [List.mem_singleton] at hc'; subst hc'
+            exact ⟨h1, h2, by simp, h3⟩
+
+theorem crun_inv (cfg : Cfg) (evs : List CEv) : ∀ s, LinInv cfg s → LinInv cfg (crun cfg s evs) := by
+  induction evs with
+  | nil => intro s h; exact h
+  | cons e es ih => intro s h; exact ih _ (cstep_inv cfg s e h)
+
+/-- **C01 linearizable.** For every finite concurrent history of CRUD calls by any number of
+    clients under every schedule in which each operation takes effect atomically: the
+    operations, ordered by the instants they took effect, form a sequential history whose
+    replay through the SPECIFICATION yields exactly the responses the clients received and
+    the final store; each call took effect between its invocation and its response; hence
+    the order is consistent with real time (`real_time_order`). -/
+theorem linearizable (cfg : Cfg) (evs : List CEv) :
+    let s := crun cfg {} evs
+    replay cfg [] s.lins = (s.store, s.lins.map (·.2.2)) ∧
+    s.lins.Pairwise (fun a b => a.1 < b.1) ∧
+    ∀ c ∈ s.completed, c.invAt < c.linAt ∧ c.linAt < c.respAt ∧ (c.linAt, c.op, c.out) ∈ s.lins := by
+  have h := crun_inv cfg evs {} (init_lin cfg)
+  exact ⟨h.seq, h.sorted, fun c hc => by obtain ⟨a, b, _, d⟩ := h.completed_ok c hc; exact ⟨a, b, d⟩⟩
+
+/-- if A's response precedes B's invocation, A took effect before B -/
+theorem real_time_order (cfg : Cfg) (evs : List CEv) (a b : Completed)
+    (ha : a ∈ (crun cfg {} evs).completed) (hb : b ∈ (crun cfg {} evs).completed)
+    (hrt : a.respAt < b.invAt) : a.linAt < b.linAt := by
+  obtain ⟨_, _, hc⟩ := linearizable cfg evs
+  obtain ⟨_, h2, _⟩ := hc a ha
+  obtain ⟨h3, _, _⟩ := hc b hb
+  omega
+
+
 /-! ### non-vacuity: a concrete store meets the hypotheses above -/
 
 def exRes : Res :=
@@ -340,5 +538,10 @@ example : (step {} [(("n1","T1","a"), exRes)] 5 (.update exRes "B" (some .runnin
   decide
 example : (step {} [(("n1","T1","a"), { exRes with fins := ["f"] })] 5 (.destroy "n1" "T1" "a" "A")).2.isErr
     = true := by decide
+
+/-- two clients, overlapping calls: both creates are invoked before either takes effect -/
+example : ((crun {} {} [.inv 1 (.create { exRes with owner := "" } "A"), .inv 2 (.create { exRes with owner := "" } "B"),
+    .lin 2, .lin 1, .resp 1, .resp 2]).completed.map fun c => (c.client, c.out.isOk, c.invAt, c.linAt, c.respAt))
+    = [(1, false, 0, 3, 4), (2, true, 1, 2, 5)] := by decide
 
 end Cosi.C01
